@@ -328,6 +328,7 @@ impl PredictorType {
 
 //@@ filter_paeth
 
+//@@ filter_avg
 //@@ unfilter
 
 //@@ flate_decode
